@@ -1829,6 +1829,18 @@ def fst(info, a):
     return e
 
 def fstp(info, a):
+    if a in float_list:
+        # fstp st(i): once the stack is popped the value of st(0) is in
+        # st(i-1); fstp st(0) only pops
+        e = []
+        if a != float_st0:
+            e.append(ExprAff(float_prev(a), float_st0))
+        e += set_float_cs_eip(info)
+        if a != float_st0:
+            e += float_pop(a)
+        else:
+            e += float_pop()
+        return e
     e = fst(info, a)
     e += float_pop(a)
     return e
